@@ -28,6 +28,7 @@ func c02Attacker(k int, lean bool) {
 	for step := 0; step < k; step++ {
 		id := string(rune('0' + step))
 		var body []byte
+		isM3 := false
 		switch verif.Choice("msg"+id, 4) {
 		case 0: // M1 start
 			hist += "start;"
@@ -43,7 +44,23 @@ func c02Attacker(k int, lean bool) {
 				verif.Assume(A[0] != 0) // minimal big-endian encoding (leading zero bytes are not modelled)
 			}
 			var proof []byte
-			if verif.Choice("proof"+id, 2) == 0 {
+			pk := verif.Choice("proof"+id, 3)
+			if lean && pk == 2 {
+				pk = 0
+			}
+			if pk == 2 {
+				// a real SRP client run with a password the adversary can guess: the accessory's
+				// public name, or the empty string (a verifier must only ever be made from the
+				// setup code)
+				guess := []string{w.dev.name, ""}[verif.Choice("guess"+id, 2)]
+				hist += "[srp client with guessed password]"
+				if salt != nil && B != nil && len(B) > 0 {
+					c := rcSRPClient(verif.Bytes("guess-a"+id, 32), guess, salt, B)
+					A, proof = c.A, c.M1
+				} else {
+					proof = verif.Bytes("M1-"+id, 64)
+				}
+			} else if pk == 0 {
 				proof = verif.Bytes("M1-"+id, 64)
 			} else {
 				// a proof the adversary CAN compute: the M1 formula over public values and a
@@ -56,6 +73,7 @@ func c02Attacker(k int, lean bool) {
 				proof = rcM1(salt, An, B, nil)
 			}
 			body = eeTLV(pair.TagSequence, byte(3), pair.TagPublicKey, A, pair.TagProof, proof)
+			isM3 = true
 		case 2: // M5 key exchange
 			var enc []byte
 			switch verif.Choice("enc"+id, 3) {
@@ -109,6 +127,10 @@ func c02Attacker(k int, lean bool) {
 			body = eeTLV(pair.TagSequence, verif.U8("junk-state"+id), pair.TagPairingMethod, verif.U8("junk-method"+id))
 		}
 		rec, _ := eePost(w.setup, "/pair-setup", remote, body)
+		if isM3 {
+			t := rec.tlv()
+			verif.Assert(rec.status >= 400 || (t != nil && t.GetByte(pair.TagErrCode) != 0), "proof-made-without-the-setup-code-is-answered-with-an-error")
+		}
 		if t := rec.tlv(); t != nil && rec.status == 200 && t.GetByte(pair.TagSequence) == 2 {
 			salt, B = t.GetBytes(pair.TagSalt), t.GetBytes(pair.TagPublicKey)
 		}
